@@ -326,3 +326,55 @@ func VC18_names() {
 	vrt.Assert(c18hasPrefix(fn, c18pre) && len(fn) > len(c18pre), "service object names resolve inside the bucket directory")
 	vrt.Assert(fn == c18pre+name, "service object names resolve to their own path")
 }
+
+// VC18_overlap: writers that are open at the same time (concurrent uploads, a merge
+// running while a chart is written) and writers that are closed twice (every handler
+// defers Close and also closes explicitly): each object still holds exactly its own
+// bytes.
+func VC18_overlap() {
+	vos.Reset()
+	ctx := context.Background()
+	b, err := NewFSBucket(ctx, c18dir, c18bkt)
+	vrt.Assert(err == nil, "bucket is created")
+	if err != nil {
+		return
+	}
+	// an earlier object whose writer is closed twice, the way the handlers do
+	if vrt.Bool() {
+		w, err := b.Object("w/0").NewWriter(ctx)
+		vrt.Assert(err == nil, "writer opens")
+		if err != nil {
+			return
+		}
+		w.Write([]byte("warm"))
+		vrt.Assert(w.Close() == nil, "close succeeds")
+		w.Close() // second close: an error at most
+	}
+	ca, cb := vrt.Bytes(1+vrt.Choose(2)), vrt.Bytes(1+vrt.Choose(2))
+	wa, err := b.Object("x/a").NewWriter(ctx)
+	vrt.Assert(err == nil, "writer opens")
+	if err != nil {
+		return
+	}
+	wb, err := b.Object("x/b").NewWriter(ctx)
+	vrt.Assert(err == nil, "second writer opens while the first is open")
+	if err != nil {
+		return
+	}
+	if vrt.Bool() {
+		wa.Write(ca)
+		wb.Write(cb)
+	} else {
+		wb.Write(cb)
+		wa.Write(ca)
+	}
+	if vrt.Bool() {
+		vrt.Assert(wa.Close() == nil && wb.Close() == nil, "close succeeds")
+	} else {
+		vrt.Assert(wb.Close() == nil && wa.Close() == nil, "close succeeds")
+	}
+	got, err := c18read(b, "x/a")
+	vrt.Assert(err == nil && string(got) == string(ca), "overlapping writers: the first object holds its own bytes")
+	got, err = c18read(b, "x/b")
+	vrt.Assert(err == nil && string(got) == string(cb), "overlapping writers: the second object holds its own bytes")
+}
